@@ -79,6 +79,10 @@ unsigned int get_rex_prefix(struct instr *all_instr, struct operand *m,
   }
   if (all_instr->keyword.is_keyword)
     overide_opd_size(all_instr, &rm);
+  // a memory operand without a size keyword is qword sized, whatever the size
+  // of its address registers
+  else if (all_instr->mem_disp && rm == m->reg && !(rm & reg_none))
+    rm = (rm & MODE_CLEAR) | reg64;
   else if (!(rm & reg_none) && !(rm & MODE_MASK) && rm >= spl)
     rex_prefix |= rex_;
   if (!(r->reg & reg_none) && !(r->reg & MODE_MASK) && r->reg >= spl)
